@@ -11,11 +11,12 @@ Only `unsat` is used; anything else (sat, unknown, timeout, parse error) leaves 
 from __future__ import annotations
 
 import os
+import re
 import shutil
 import subprocess
 import tempfile
 
-Z3_ONLY = ('(_ map', 'as-array', '(setminus', '(union ', '(intersection ', '(subset ', '(complement ', '(_ const')
+Z3_ONLY = ('(_ map', 'as-array', '(setminus', '(union ', '(intersection ', '(subset ', '(complement ', '(lambda ', '(as subset')
 _version = None
 
 
@@ -50,7 +51,63 @@ def split_top(s: str):
     return out
 
 
+SETOPS = {'union': ('(or (select a x) (select b x))', 2), 'intersection': ('(and (select a x) (select b x))', 2),
+          'setminus': ('(and (select a x) (not (select b x)))', 2), 'complement': ('(not (select a x))', 1)}
+
+
+def _balanced(text, i):
+    """text[i] == '(' -> index just after the matching ')'."""
+    depth = 0
+    while True:
+        c = text[i]
+        if c == '(':
+            depth += 1
+        elif c == ')':
+            depth -= 1
+            if depth == 0:
+                return i + 1
+        i += 1
+
+
+def translate_setops(text: str):
+    """z3 prints its set operations on `(Array T Bool)` as `((as union (Array T Bool)) A B)`.  cvc5 has no such
+    symbol: each (operation, sort) becomes an uninterpreted function with its defining axiom
+    `forall a b x. select(op(a, b), x) = ...` (complete, since arrays are extensional).  -> (text, declarations)"""
+    decls, names = [], {}
+    for op, (body, arity) in SETOPS.items():
+        key = f'((as {op} '
+        while key in text:
+            i = text.index(key)
+            j = i + len(key)
+            k = _balanced(text, j)                 # the sort expression (Array T Bool)
+            sort = text[j:k]
+            close = text.index(')', k)             # closes `(as op SORT`
+            if (op, sort) not in names:
+                nm = f'z3set_{op}_{len(names)}'
+                names[(op, sort)] = nm
+                elem_end = _balanced(sort, sort.index(' ') + 1) if sort[sort.index(' ') + 1] == '(' else sort.index(' ', sort.index(' ') + 1)
+                elem = sort[sort.index(' ') + 1:elem_end]
+                if arity == 2:
+                    decls.append(f'(declare-fun {nm} ({sort} {sort}) {sort})')
+                    decls.append(f'(assert (forall ((a {sort}) (b {sort}) (x {elem})) (= (select ({nm} a b) x) {body})))')
+                else:
+                    decls.append(f'(declare-fun {nm} ({sort}) {sort})')
+                    decls.append(f'(assert (forall ((a {sort}) (x {elem})) (= (select ({nm} a) x) {body})))')
+            text = text[:i] + '(' + names[(op, sort)] + text[close + 1:]
+    return text, decls
+
+
+def rename_reserved(text: str) -> str:
+    """Symbols starting with `@` are reserved in SMT-LIB (z3 prints PyVC's heap names `@sys.stdout...` bare)."""
+    parts = text.split('"')
+    for n in range(0, len(parts), 2):
+        parts[n] = re.sub(r'(?<=[\s(])@', 'at!', parts[n])
+    return '"'.join(parts)
+
+
 def to_cvc5(text: str) -> str:
+    text = rename_reserved(text)
+    text, setdecls = translate_setops(text)
     cmds = split_top(text)
     sorts = [c for c in cmds if c.startswith('(declare-sort')]
     rest = []
@@ -60,6 +117,8 @@ def to_cvc5(text: str) -> str:
         if c.startswith('(assert') and any(x in c for x in Z3_ONLY):
             continue
         rest.append(c)
+    first_assert = next((n for n, c in enumerate(rest) if c.startswith('(assert')), len(rest))
+    rest = rest[:first_assert] + setdecls + rest[first_assert:]
     return '(set-logic ALL)\n' + '\n'.join(sorts + rest) + '\n(check-sat)\n'
 
 
@@ -81,22 +140,31 @@ def cvc5_version():
 
 def cvc5_unsat(solver, timeout_ms: int):
     """-> (True, version) iff cvc5 answers `unsat` on the (weakened) query within the budget."""
+    ans, ver = cvc5_answer(solver, timeout_ms)
+    return ans == 'unsat', ver
+
+
+def cvc5_answer(solver, timeout_ms: int):
+    """-> (first output line of cvc5: 'unsat' | 'sat' | 'unknown' | '' (timeout / error), version)."""
     b = cvc5_binary()
     if b is None:
-        return False, None
+        return '', None
     try:
         text = to_cvc5(solver.to_smt2())
     except Exception:
-        return False, None
+        return '', None
     fd, path = tempfile.mkstemp(suffix='.smt2', prefix='pyvc-')
     try:
         with os.fdopen(fd, 'w') as fh:
             fh.write(text)
         cp = subprocess.run([b, f'--tlimit={int(timeout_ms)}', path], capture_output=True, text=True, timeout=timeout_ms / 1000 + 10)
         first = (cp.stdout.strip().splitlines() or [''])[0].strip()
-        return (first == 'unsat'), cvc5_version()
+        if first not in ('unsat', 'sat', 'unknown') and os.environ.get('PYVC_CVC5_DEBUG'):
+            with open(os.environ['PYVC_CVC5_DEBUG'], 'a') as fh:
+                fh.write((cp.stdout + cp.stderr)[:400] + '\n---\n')
+        return (first if first in ('unsat', 'sat', 'unknown') else ''), cvc5_version()
     except Exception:
-        return False, None
+        return '', None
     finally:
         try:
             os.unlink(path)
